@@ -139,7 +139,8 @@ class Emitter:
                 if tn not in self.declared:
                     self.declared.add(tn)
                     self.struct(tn, f[1])
-                lines.append("\t%s" % tn)
+                # every other embedded field (by position) carries a tag of another package (structs shared with encoding/json do): still an embedded field
+                lines.append("\t%s%s" % (tn, ' `json:",inline"`' if (self.ntype + len(lines)) % 2 == 0 else ""))
             elif f[0] == "groupref":
                 # ("groupref", rep, fields, name, tag, typename): a group whose struct type is declared elsewhere (type reuse)
                 tn = f[5]
